@@ -107,7 +107,7 @@ def plan_C01(tier):
     return qs, info
 
 
-OPS = {"GO": 1, "GA": 2, "N": 3, "LO": 4, "LA": 5, "RAW": 6, "F": 7, "TW": 8, "FS": 9, "FE": 10, "NE": 11, "RS": 12, "VF": 13, "GN": 14}
+OPS = {"GO": 1, "GA": 2, "N": 3, "LO": 4, "LA": 5, "RAW": 6, "F": 7, "TW": 8, "FS": 9, "FE": 10, "NE": 11, "RS": 12, "VF": 13, "GN": 14, "IB": 15, "IN": 16}
 
 
 def gen_scripts(root, K, alphabet=("GO", "GA", "N", "LO", "LA", "RAW", "F"), maximal_only=True):
@@ -283,6 +283,17 @@ def biglen_query(root, timeout=900):
                  unwindset={"_advance_parsing.0": 4, "_parse_integer.0": 9, "memcmp.0": 4}, unwind=20, checks="mem", timeout=timeout,
                  mem_gb=2, tags={"family": "H-TOKEN", "what": "one next over a symbolic token header, claimed buffer size symbolic up to 2^33: "
                                  "every 1/2/4-byte length 0..INT32_MAX, every integer width, doubles"}, group="h_biglen")
+
+
+def offset_token_nodes():
+    """numeric tokens behind 0..3 one-byte elements: the payload lands on every residue of its offset modulo 4
+    (a decode that depends on where the bytes happen to sit)"""
+    from .shapes import Node
+    out = []
+    for code in ("I2", "I4", "I8", "D"):
+        for pad in range(0, 4):
+            out.append((2, Node("A", [Node("T")] * pad + [Node(code)], [])))
+    return out
 
 
 def big_token_nodes():
@@ -468,11 +479,11 @@ def plan_C06(tier):
         qs += chain_queries(6, tier)
         qs += sibling_queries(6, ("skip", "raw", "full"))
         qs += deep_chain_queries(6, (17, 33), ("full", "skip", "raw"))
-        qs += exhaustive_script_queries(6, 8, 7, 8) + exhaustive_script_queries(6, 6, 5, 9, restarts=1)
+        qs += exhaustive_script_queries(6, 7, 6, 9) + exhaustive_script_queries(6, 6, 5, 9, restarts=1)
         # deep structure with a single scalar kind: every tree up to 10 tokens, nesting up to 4
-        qs += shape_variant_queries(6, 2, 10, variants=("full", "skip", "raw"), scalars=("T",), max_nest=4, witness_every=16)
-        qs += shape_variant_queries(6, 1, 10, variants=("full", "skip", "raw"), scalars=("T",), max_nest=4, witness_every=16)
-        cfg = [(3, 4, None, (2,)), (3, 6, None, (1, 2)), (4, 6, None, (1, 2)), (4, 8, 5, (1, 2)), (5, 6, 5, (1, 2)), (5, 8, 5, (2,))]
+        qs += shape_variant_queries(6, 2, 10, variants=("skip", "raw"), scalars=("T",), max_nest=4, witness_every=32)
+        qs += shape_variant_queries(6, 1, 10, variants=("skip", "raw"), scalars=("T",), max_nest=4, witness_every=32)
+        cfg = [(3, 4, None, (2,)), (3, 6, None, (1, 2)), (4, 6, 5, (1, 2)), (4, 8, 5, (2,)), (5, 6, 5, (2,))]
     # (2) arbitrary valid documents of n bytes (every byte symbolic), all stack-consistent scripts
     seen = set()
     for (K, n, J, roots) in cfg:
@@ -517,6 +528,9 @@ def plan_C03(tier):
     qs += shape_variant_queries(3, 2, 4 if tier == "quick" else 5, variants=("full",), scalars=("B1", "D"), witness_every=4)
     qs += shape_variant_queries(3, 2, 4 if tier == "quick" else 5, variants=("full",), scalars=("T", "F"), witness_every=4)
     qs += shape_variant_queries(3, 1, 5 if tier == "quick" else 6, variants=("full",), scalars=("T", "F"), witness_every=4)
+    for root, node in offset_token_nodes():
+        from . import shapes
+        qs.append(shape_script_query(3, node, shapes.full_script(node), "offset", root))
     # getter neutrality from an arbitrary state
     qs.append(step_query(3, 15, 6, 2, checks="func"))
     # every length width / integer width with a symbolic claimed buffer size (lengths up to INT32_MAX)
@@ -584,8 +598,8 @@ def plan_C07(tier):
         scripts = [["GO", "F"], ["GO", "F", "N"], ["GO", "FE"]]
         shapes_l = [shapes_l[i] for i in (0, 3, 6)]
     else:
-        scripts += [["GO", "F", "F", "F"], ["GO", "F", "GO", "LO", "F"], ["GO", "F", "GA", "LA", "F"], ["GO", "F", "RAW", "F"], ["GO", "FS", "FS"],
-                    ["GO", "FE", "F"], ["GO", "F", "F", "N"]]
+        scripts += [["GO", "F", "GO", "LO", "F"], ["GO", "F", "RAW", "F"]]
+        shapes_l = [shapes_l[i] for i in (0, 1, 3, 4, 6, 7, 8)]
     for node in shapes_l:
         for s in scripts:
             q = shape_script_query(7, node, s, "lookup", 1, tight=True, timeout=1500)
@@ -623,7 +637,7 @@ def mutation_queries(prop, tier):
     from . import shapes
     qs = []
     for root in (1, 2):
-        T = (3 if root == 2 else 4) if tier == "quick" else (5 if root == 2 else 6)
+        T = (3 if root == 2 else 4) if tier == "quick" else (4 if root == 2 else 5)
         for node in shapes.gen_shapes(root, T, ("T", "S1"), 3):
             b, m = shapes.skeleton(node)
             tags = [("full", shapes.full_script(node))]
@@ -1164,7 +1178,7 @@ def reuse_queries(tier):
     for root in (1, 2):
         nodes = shapes.chain_shapes(root, 4, True) + shapes.gen_shapes(root, 6 if root == 1 else 5, ("T", "S1"), 3)
         if tier != "quick":
-            nodes += shapes.chain_shapes(root, 5, True) + shapes.gen_shapes(root, 8 if root == 1 else 7, ("T", "S1"), 3)
+            nodes += shapes.chain_shapes(root, 5, True) + shapes.gen_shapes(root, 7 if root == 1 else 6, ("T", "S1"), 3)
         seen = set()
         for node in nodes:
             if node.label() in seen:
@@ -1173,8 +1187,8 @@ def reuse_queries(tier):
             full = shapes.full_script(node)
             cuts = list(range(1, len(full))) if tier != "quick" else [k for k in range(1, len(full)) if full[k - 1] in ("GO", "GA", "N")]
             for cut in cuts:
-                for op in ((("RS", "VF") if cut == cuts[len(cuts) // 2] else ("RS",)) if tier == "quick" else ("RS", "VF")):
-                    s = full[:cut] + [op] + full
+                for op in ((("RS", "VF", "IB+IN") if cut == cuts[len(cuts) // 2] else ("RS",)) if tier == "quick" else ("RS", "VF", "IN", "IB+IN")):
+                    s = full[:cut] + op.split("+") + full
                     q = shape_script_query(12, node, s, "reuse@%d" % cut, root)
                     qs.append(q)
     return _sparse_witness(qs, 6 if tier == "quick" else 16)
@@ -1184,7 +1198,7 @@ def plan_C12(tier):
     qs = []
     qs += reuse_queries(tier)
     # every protocol-following script with one reset somewhere in the middle
-    qs += exhaustive_script_queries(12, 6, 5, 7, restarts=1) if tier == "quick" else exhaustive_script_queries(12, 7, 6, 9, restarts=1)
+    qs += exhaustive_script_queries(12, 6, 5, 7, restarts=1) if tier == "quick" else exhaustive_script_queries(12, 6, 5, 9, restarts=1)
     ns = (0, 1, 2, 3, 5, 6) if tier == "quick" else range(0, 11)
     for n in ns:
         for root in (1, 2):
@@ -1277,7 +1291,7 @@ def any_script_queries(propset, K, checks="func"):
 def plan_C16(tier):
     qs = []
     qs += wrong_op_queries(16, tier)
-    qs += any_script_queries(16, 2 if tier == "quick" else 4)
+    qs += any_script_queries(16, 2 if tier == "quick" else 3)
     ns = (2, 4, 5, 6) if tier == "quick" else range(2, 13)
     for n in ns:
         for root in (1, 2):
